@@ -84,7 +84,7 @@ Qed.
 (* ---------- frontend *)
 Lemma fstep_cnt s o : CntInv s -> CntInv (fstep K s o).
 Proof.
-  intros I. destruct o as [t e|t|t|t|t|l v|k v|d]; cbn [fstep].
+  intros I. destruct o as [t e|t|t|t|t|l v|k v|k m|d]; cbn [fstep].
   - destruct (pend (th s t)); [exact I|]. destruct (tvalid (th s t) && passes_logger s e); [|exact I].
     eapply cnt_fsame; [|exact I]. repeat split. intro u. cbn. unfold upd. destruct (Nat.eqb_spec u t) as [->|]; reflexivity.
   - destruct (memb t (registered s)) eqn:M; [exact I|]. cbn [orb]. destruct (negb (tvalid (th s t))); [exact I|].
@@ -102,8 +102,9 @@ Proof.
     assert (Hin : In t (registered s)) by (apply memb_in; now apply negb_false_iff).
     cbv zeta. set (e := retime K s e0).
     destruct (prepare_write ideal (c_cap K) (q (th s t)) (esz e)) as [q1 [off|]].
-    + eapply cnt_fsame; [|exact I]. repeat split. intro u. cbn [th set_th]. unfold upd.
-      destruct (Nat.eqb_spec u t) as [->|]; [|reflexivity]. destruct (ekind e); reflexivity.
+    + eapply cnt_fsame; [|exact I].
+      destruct (ekind e); (repeat split; intro u; cbn [th set_th set_lg]; unfold upd;
+        destruct (Nat.eqb_spec u t) as [->|]; reflexivity).
     + destruct (match ekind e with KLog => negb (counted (th s t)) | _ => false end) eqn:Inc.
       * (* counted: failc + 1, denied + 1 *)
         assert (Hcount : forall p c,
@@ -127,6 +128,7 @@ Proof.
       eapply cnt_fsame; [|exact I]. repeat split. intro u. cbn. unfold upd. destruct (Nat.eqb_spec u t) as [->|]; reflexivity.
   - eapply cnt_fsame; [|exact I]. repeat split.
   - eapply cnt_fsame; [|exact I]. repeat split.
+  - destruct (existsb (N.eqb m) (sfilt (sk s k)) || (m =? 0)); [exact I|]. eapply cnt_fsame; [|exact I]. repeat split.
   - eapply cnt_fsame; [|exact I]. repeat split.
 Qed.
 
@@ -178,13 +180,14 @@ Proof.
   destruct (Nat.eqb_spec a t) as [->|]; [exfalso; apply H; now left|]. cbn. f_equal. apply IH. intro; apply H; now right.
 Qed.
 
+Lemma core_fsame s s' : th s' = th s -> registered s' = registered s -> gh s' = gh s -> fsame s s'.
+Proof. intros A B Cc. split; [intro u; now rewrite A|split; assumption]. Qed.
+
 Lemma dispatch_fsame e ks : forall s, fsame s (fst (dispatch s e ks)).
-Proof.
-  induction ks as [|k r IH]; intro s; cbn [dispatch]; [apply fsame_refl|].
-  destruct (slevel (sk s k) <=? elvl e); [|apply IH].
-  destruct (memb (swrites (sk s k)) (sthrow (sk s k))); cbn [fst]; [repeat split|].
-  eapply fsame_trans; [|apply IH]. repeat split.
-Qed.
+Proof. intro s. destruct (dispatch_core s e ks) as (A & _ & _ & _ & _ & G & H & _). now apply core_fsame. Qed.
+
+Lemma process_event_fsame s e : fsame s (process_event K s e).
+Proof. destruct (process_event_core K s e) as (A & _ & _ & _ & _ & G & H & _). now apply core_fsame. Qed.
 
 Lemma read_loop_failc fuel tn : forall x total notes,
   failc (fst (fst (fst (read_loop K fuel tn x total notes)))) = failc x.
@@ -280,13 +283,8 @@ Lemma process_min_cnt s : CntInv s -> NoLoss s -> CntInv (fst (process_min K s))
 Proof.
   intros I L. unfold process_min.
   destruct (min_front s (cache s) None) as [[u e]|]; [|split; assumption].
-  set (s1 := match ekind e with KLog => _ | KFlush => _ | _ => s end).
-  assert (F1 : fsame s s1).
-  { unfold s1. destruct (ekind e); try apply fsame_refl.
-    - pose proof (dispatch_fsame e (lsinks (lg s (elg e))) s) as D.
-      destruct (dispatch s e (lsinks (lg s (elg e)))) as [s' threw]. cbn [fst] in D.
-      destruct threw; [eapply fsame_trans; [exact D|repeat split]|exact D].
-    - repeat split. }
+  set (s1 := process_event K s e).
+  assert (F1 : fsame s s1) by apply process_event_fsame.
   assert (F3 : fsame s (pop_event s1 u e)).
   { eapply fsame_trans; [exact F1|]. repeat split. intro v. cbn. unfold upd. destruct (Nat.eqb_spec v u) as [->|]; reflexivity. }
   pose proof (cnt_fsame _ _ F3 I) as I3. pose proof (noloss_fsame _ _ F3 L) as L3.
@@ -330,15 +328,16 @@ Qed.
 Lemma fstep_noloss s o : NoLoss s -> NoLoss (fstep K s o).
 Proof.
   intros L H. specialize (L H).
-  destruct o as [t e|t|t|t|t|l v|k v|d]; cbn [fstep]; auto.
+  destruct o as [t e|t|t|t|t|l v|k v|k m|d]; cbn [fstep]; auto.
   - destruct (pend (th s t)); [exact L|]. destruct (tvalid (th s t) && passes_logger s e); exact L.
   - destruct (memb t (registered s) || negb (tvalid (th s t))); exact L.
   - destruct (pend (th s t)) as [e0|]; [|exact L]. destruct (negb (memb t (registered s))); [exact L|].
-    cbv zeta. destruct (prepare_write ideal (c_cap K) (q (th s t)) (esz (retime K s e0))) as [q1 [off|]]; [exact L|].
+    cbv zeta. destruct (prepare_write ideal (c_cap K) (q (th s t)) (esz (retime K s e0))) as [q1 [off|]]; [destruct (ekind (retime K s e0)); exact L|].
     destruct (match ekind (retime K s e0) with KLog => negb (counted (th s t)) | _ => false end);
       destruct (c_dropping K); try destruct (ekind (retime K s e0)); exact L.
   - destruct (wflush (th s t)); [|exact L]. destruct (existsb (N.eqb n) (flags s)); exact L.
   - destruct (tvalid (th s t) && memb t (registered s)); [exact L|]. destruct (tvalid (th s t)); exact L.
+  - destruct (existsb (N.eqb m) (sfilt (sk s k)) || (m =? 0)); exact L.
 Qed.
 
 Theorem run_cnt ops : forall s, CntInv s -> NoLoss s -> CntInv (run K s ops) /\ NoLoss (run K s ops).
